@@ -173,19 +173,25 @@ class Ctx:
         """SMT-LIB text whose unsatisfiability proves  /\\ hyps => goal."""
         body_terms = list(hyps) + [goal]
         axioms = list(self.axioms) if extra_axioms else []
-        if self.axiom_keys:
-            # relevance filter (dropping an axiom is always sound): keyed axioms need one of their symbols in the VC
+        if axioms:
+            # relevance filter (dropping an axiom is always sound): an axiom is emitted only if the VC (or an axiom already
+            # kept) mentions one of its keys; the default keys of an axiom are the declared function symbols it mentions
             symbols = set()
             for t in body_terms:
                 for x, _ in smt.subterms(t):
                     symbols.add(x.op)
-            for _ in range(3):
-                kept = [(n, t) for n, t in axioms if n not in self.axiom_keys or any(k in symbols for k in self.axiom_keys[n])]
+            keys_of = {}
+            syms_of = {}
+            for n, t in axioms:
+                ops_ = {x.op for x, _ in smt.subterms(t)}
+                syms_of[n] = ops_
+                keys_of[n] = self.axiom_keys.get(n) or [o for o in ops_ if o in self._ufuncs]
+            kept = axioms
+            for _ in range(12):
+                kept = [(n, t) for n, t in axioms if not keys_of[n] or any(k in symbols for k in keys_of[n])]
                 before = len(symbols)
                 for n, t in kept:
-                    if n in self.axiom_keys:
-                        for x, _ in smt.subterms(t):
-                            symbols.add(x.op)
+                    symbols |= syms_of[n]
                 if len(symbols) == before:
                     break
             axioms = kept
